@@ -502,14 +502,20 @@ def face_type_range(rep, prog):
 
 def owner_cell(rep, prog):
     add = prog.fn("cell::add_face")
-    sets = [n for n in walk(add["body"]) if (n.get("k") == "BinaryOperator" and n.get("op") == "=" and "owner_cell_" in render(n["c"][0])) or (n.get("k") == "CXXOperatorCallExpr" and n.get("op") == "=" and "owner_cell_" in render(n["c"][1])) or (n.get("k") == "CXXMemberCallExpr" and n.get("callee") == "face::set_owner_cell")]
-    ok = bool(sets) and all("shared_from_this" in render(n) for n in sets)
-    fi = prog.index(add)
-    # one per branch (reuse a slot / push_back)
-    if ok and len(sets) >= 2:
-        rep.ok("C08.owner-cell", prog, add, sets[0], "cell::add_face sets owner_cell_ = shared_from_this() on both the slot-reuse and the push_back branch")
+    from .. import paths as P
+    try:
+        ps = [ev for ev, done in P.paths(add["body"]) if not any(e[0] == "throw" for e in ev)]
+    except P.PathExplosion as e:
+        raise AnalysisBroken("cell::add_face: %s" % e)
+    missing = 0
+    for ev in ps:
+        own = [e[1] for e in ev if (e[0] == "assign" and "owner_cell_" in render(e[1]["c"][-2]) and "shared_from_this" in render(e[1]["c"][-1])) or (e[0] == "call" and e[1].get("callee") == "face::set_owner_cell" and "shared_from_this" in render(e[1]))]
+        if not own:
+            missing += 1
+    if ps and not missing:
+        rep.ok("C08.owner-cell", prog, add, None, "cell::add_face sets owner_cell_ = shared_from_this() on each of its %d paths (slot reuse and append)" % len(ps))
     else:
-        rep.violation("C08.owner-cell", prog, add, None, "add_face does not set the owner on every branch", "cell::add_face must set the new face's owner_cell_ to shared_from_this() whether it reuses a free slot or appends (found %d assignment(s))" % len(sets))
+        rep.violation("C08.owner-cell", prog, add, None, "add_face does not set the owner on every path", "cell::add_face must set the new face's owner_cell_ to shared_from_this() whether it reuses a free slot or appends (%d of %d paths do not)" % (missing, len(ps)))
     so = prog.fn("cell::set_face_owner_cell", required=False)
     if so is not None:
         s2 = [n for n in walk(so["body"]) if "owner_cell_" in render(n) and "shared_from_this" in render(n) and n.get("k") in ("BinaryOperator", "CXXOperatorCallExpr", "CXXMemberCallExpr")]
